@@ -303,7 +303,7 @@ def job_runs(ctx, jr, seeds, depth, size):
         jr.samples.append(' | '.join(lines))
         for assign in itertools.product(*dims):
             vals = dict(zip(names, assign[:-1])); alen = assign[-1]
-            e = ctx.engine(unwind=120, max_rec=8); e.int_digits = 2
+            e = ctx.engine(unwind=1000, max_rec=8); e.int_digits = 2
             e.hooks['utils::state::put_handle'] = _put_handle
             e.hooks['std::sync::atomic::Atomic::<bool>::load'] = lambda eng, st1, a, c: False
             t0 = time.time()
